@@ -291,13 +291,30 @@ Proof.
     eapply pairs_easy; [|exact Hf]. intros p Hp. unfold f2 in Hp. now apply negb_true_iff in Hp.
 Qed.
 
+(* every look-behind body is constant-size, or an alternation of constant-size alternatives
+   (otherwise the pattern does not compile: CLookBehindNotConst) *)
+Fixpoint lbc (e : expr) : Prop :=
+  match e with
+  | LookAround c la =>
+      lbc c /\ (is_behind la = true ->
+                zok c /\       (* the \Z helper only under a look-ahead *)
+                (const_size c = true \/ exists es, c = Alt es /\ Forall (fun x => const_size x = true) es))
+  | Concat es | Alt es => (fix go (l : list expr) : Prop := match l with [] => True | x :: r => lbc x /\ go r end) es
+  | Group c | Repeat c _ _ _ | AtomicGroup c => lbc c
+  | Conditional c y n => lbc c /\ lbc y /\ lbc n
+  | _ => True
+  end.
+Fixpoint lbc_list (l : list expr) : Prop := match l with [] => True | x :: r => lbc x /\ lbc_list r end.
+Lemma lbc_concat es : lbc (Concat es) = lbc_list es. Proof. induction es; simpl in *; congruence. Qed.
+Lemma lbc_alt es : lbc (Alt es) = lbc_list es. Proof. induction es; simpl in *; congruence. Qed.
+
 (* ---------- the two statements ---------- *)
 Notation Prn := (prune sst E).
 Notation Hd := (hdrel sst).
 Definition pbind := prune_bind sst E E_refl E_trans.
 Definition pweak := prune_weaken sst E E_refl E_trans.
 
-Definition preA (e : expr) : Prop := wfe e /\ zok e /\ rok e.
+Definition preA (e : expr) : Prop := wfe e /\ zok e /\ rok e /\ lbc e.
 
 Definition AH (e : expr) : Prop := preA e -> forall g st, sok st ->
   Prn (sem cx (atomize bs e g true) fuel g st) (sem cx e fuel g st).
@@ -320,11 +337,11 @@ Proof.
 Qed.
 
 (* the hard middle children of a concatenation *)
-Lemma prune_cat : forall B, Forall AH B -> wfe_list B -> zok_list B -> refs_ok_list True refd B ->
+Lemma prune_cat : forall B, Forall AH B -> wfe_list B -> zok_list B -> refs_ok_list True refd B -> lbc_list B ->
   forall g st, sok st -> Prn (sem_cat cx fuel g (atom_list bs true g B) st) (sem_cat cx fuel g B st).
 Proof.
-  induction 1 as [|x r Hx Hr IH]; intros Hw Hz Hrf g st Hs; [apply prune_refl|].
-  destruct Hw as [Hwx Hwr]. destruct Hz as [Hzx Hzr]. destruct Hrf as [Hrx Hrr].
+  induction 1 as [|x r Hx Hr IH]; intros Hw Hz Hrf Hlb g st Hs; [apply prune_refl|].
+  destruct Hw as [Hwx Hwr]. destruct Hz as [Hzx Hzr]. destruct Hrf as [Hrx Hrr]. destruct Hlb as [Hlx Hlr].
   cbn [atom_list sem_cat]. rewrite kn.
   eapply (pbind _ _ sok).
   - intros s1 Hs1. apply IH; auto.
@@ -382,5 +399,126 @@ Proof.
   - apply pr_keep. eapply pweak; [exact Hm|]. intros x [].
 Qed.
 End RepA.
+
+(* ---------- look-arounds: the atomized tree gives the SAME result list ---------- *)
+Lemma firstn1_of_hd {X} (l' l : list X) : hd_error l' = hd_error l -> firstn 1 l' = firstn 1 l.
+Proof. destruct l', l; cbn; intros H; try discriminate; auto. inversion H; reflexivity. Qed.
+Lemma nil_of_hd {X} (l' l : list X) : hd_error l' = hd_error l -> (l' = [] <-> l = []).
+Proof. destruct l', l; cbn; intros H; try discriminate; split; intros; auto; discriminate. Qed.
+
+Lemma la_ahead c g st : AT c -> preA c -> sok st ->
+  sem cx (LookAround (atomize bs c g false) LookAhead) fuel g st = sem cx (LookAround c LookAhead) fuel g st /\
+  sem cx (LookAround (atomize bs c g false) LookAheadNeg) fuel g st = sem cx (LookAround c LookAheadNeg) fuel g st.
+Proof.
+  intros Hc Hp Hs. specialize (Hc Hp g st Hs). unfold hdrel in Hc. destruct st as [ix cp]. cbn [sem]. split.
+  - now rewrite (firstn1_of_hd _ _ Hc).
+  - destruct (sem cx (atomize bs c g false) fuel g (ix, cp)), (sem cx c fuel g (ix, cp)); cbn in Hc; auto; discriminate.
+Qed.
+
+Lemma la_behind_const c g st la : AT c -> preA c -> const_size c = true -> sok st -> is_behind la = true ->
+  sem cx (LookAround (atomize bs c g false) la) fuel g st = sem cx (LookAround c la) fuel g st.
+Proof.
+  intros Hc (Hw & Hz & Hr & Hl) Hcs Hs Hb.
+  assert (S1 := sem_la_eq cs W cx Htext Hlen 2 (le_n _) fuel Hfuel (atomize bs c g false) la g st
+                  (kw c g false Hw) (fun _ => kz c g false Hz) Hs).
+  assert (S2 := sem_la_eq cs W cx Htext Hlen 2 (le_n _) fuel Hfuel c la g st Hw (fun _ => Hz) Hs).
+  rewrite S1 by (destruct la; auto; now rewrite kc). rewrite S2 by (destruct la; auto). clear S1 S2.
+  assert (Hf : forall l' l : list sst, hd_error l' = hd_error l ->
+            map (fun s' : sst => (fst st, snd s')) (firstn 1 l') = map (fun s' => (fst st, snd s')) (firstn 1 l) /\
+            (match l' with [] => [st] | _ => [] end) = (match l with [] => [st] | _ => [] end)).
+  { intros l' l H. split; [now rewrite (firstn1_of_hd _ _ H)|]. destruct l', l; cbn in H; auto; discriminate. }
+  assert (Hla : hd_error (la_f cx fuel la (atomize bs c g false) g st) = hd_error (la_f cx fuel la c g st)).
+  { assert (Hg : hd_error (match goback cx (fst st) (min_size c) (fst st) with
+                            | GBOk j => sem cx (atomize bs c g false) fuel g (j, snd st) | _ => [] end) =
+                 hd_error (match goback cx (fst st) (min_size c) (fst st) with
+                            | GBOk j => sem cx c fuel g (j, snd st) | _ => [] end)).
+    { pose proof (goback_sound cs W cx Htext (fst st) (min_size c) (fst st) (proj1 Hs) (le_n _)) as Gs.
+      destruct (goback cx (fst st) (min_size c) (fst st)) as [j| |]; auto.
+      destruct Gs as (n0 & _ & D0). destruct (dist_bnd cs W _ _ _ D0) as (Bj & _ & _).
+      apply (Hc (conj Hw (conj Hz (conj Hr Hl))) g (j, snd st)). split; [exact Bj|apply Hs]. }
+    destruct la; try discriminate; cbn [la_f]; rewrite km; exact Hg. }
+  destruct (Hf _ _ Hla) as [H1 H2]. destruct la; try discriminate; auto.
+Qed.
+
+(* look-behind over alternatives of different lengths: alternative by alternative *)
+Lemma atom_wfe : forall l gx, wfe_list l -> wfe_list (atom_list bs false gx l).
+Proof. induction l as [|x r IH]; intros gx H; [exact I|]. destruct H. split; [now apply kw|now apply IH]. Qed.
+Lemma atom_zok : forall l gx, zok_list l -> zok_list (atom_list bs false gx l).
+Proof. induction l as [|x r IH]; intros gx H; [exact I|]. destruct H. split; [now apply kz|now apply IH]. Qed.
+Lemma atom_const : forall l gx x', Forall (fun x => const_size x = true) l -> In x' (atom_list bs false gx l) -> const_size x' = true.
+Proof.
+  induction l as [|x r IH]; intros gx x' H Hin; [destruct Hin|]. apply Forall_cons_iff in H as [H1 H2].
+  cbn [atom_list] in Hin. destruct Hin as [<-|Hin]; [now rewrite kc|eapply IH; eauto].
+Qed.
+
+Lemma gsem_alts_atom la : is_behind la = true -> forall l, Forall AT l -> wfe_list l -> zok_list l ->
+  refs_ok_list True refd l -> lbc_list l -> Forall (fun x => const_size x = true) l -> forall g st, sok st ->
+  gsem_alts (fun x' gx s => sem cx (LookAround x' la) fuel gx s) g (atom_list bs false g l) st =
+  gsem_alts (fun x gx s => sem cx (LookAround x la) fuel gx s) g l st.
+Proof.
+  intros Hb. induction l as [|x r IH]; intros HA Hwl Hzl Hrl Hll Hcl g st Hs; [reflexivity|].
+  apply Forall_cons_iff in HA as [HA1 HA2]. destruct Hwl as [W1 W2]. destruct Hzl as [Z1 Z2]. destruct Hrl as [R1 R2].
+  destruct Hll as [L1 L2]. apply Forall_cons_iff in Hcl as [C1 C2].
+  cbn [atom_list gsem_alts]. rewrite kn. rewrite IH by auto.
+  rewrite (la_behind_const x g st la HA1); auto. repeat split; auto.
+Qed.
+
+Lemma gsem_seq_atom la : is_behind la = true -> forall l, Forall AT l -> wfe_list l -> zok_list l ->
+  refs_ok_list True refd l -> lbc_list l -> Forall (fun x => const_size x = true) l -> forall g st, sok st ->
+  gsem_seq (fun x' gx s => sem cx (LookAround x' la) fuel gx s) g (atom_list bs false g l) st =
+  gsem_seq (fun x gx s => sem cx (LookAround x la) fuel gx s) g l st.
+Proof.
+  intros Hb. induction l as [|x r IH]; intros HA Hwl Hzl Hrl Hll Hcl g st Hs; [reflexivity|].
+  apply Forall_cons_iff in HA as [HA1 HA2]. destruct Hwl as [W1 W2]. destruct Hzl as [Z1 Z2]. destruct Hrl as [R1 R2].
+  destruct Hll as [L1 L2]. apply Forall_cons_iff in Hcl as [C1 C2].
+  cbn [atom_list gsem_seq]. rewrite kn.
+  rewrite (la_behind_const x g st la HA1); auto; [|repeat split; auto].
+  apply flat_map_ext_in'. intros a Ha. apply IH; auto.
+  eapply (ok_sem (LookAround x la)); eauto.
+Qed.
+
+Lemma la_eq c la g hc st : AT c -> Forall AT (alts_of c) -> preA (LookAround c la) -> sok st ->
+  negb hc && negb (hard bs g (LookAround c la)) = false ->
+  sem cx (atomize bs (LookAround c la) g hc) fuel g st = sem cx (LookAround c la) fuel g st.
+Proof.
+  intros Hc Halts (Hw & Hz & Hr & Hl) Hs Hsh. cbn [wfe] in Hw. cbn [refs_ok] in Hr. cbn [lbc] in Hl. destruct Hl as [Hlc Hlb].
+  destruct (match la, c with (LookBehind | LookBehindNeg), Alt _ => negb (const_size c) | _, _ => false end) eqn:Esp.
+  - (* an alternation of different lengths *)
+    destruct c as [| | | | |es| | | | | | | | | | |]; try (destruct la; discriminate).
+    assert (Hla : la = LookBehind \/ la = LookBehindNeg) by (destruct la; auto; discriminate).
+    assert (Hb : is_behind la = true) by (destruct Hla as [-> | ->]; reflexivity).
+    assert (Hcs : const_size (Alt es) = false) by (destruct la; try discriminate; now apply negb_true_iff in Esp).
+    rewrite (atomize_lb_split bs es g hc la Hsh Hla Hcs).
+    destruct (Hlb Hb) as [Hzc [Hcc|(es0 & E0 & Hall)]]; [congruence|]. inversion E0; subst es0. clear E0.
+    rewrite wfe_alt in Hw. rewrite zok_alt in Hzc.
+    rewrite refs_ok_alt in Hr. rewrite lbc_alt in Hlc. cbn [alts_of] in Halts.
+    assert (Hcs' : const_size (Alt (atom_list bs false g es)) = false).
+    { assert (Hk : keeps (Alt es) (Alt (atom_list bs false g es))).
+      { apply keeps_alt. apply atom_list_keeps. apply Forall_forall. intros x _ g0 hc0. apply atomize_keeps. }
+      destruct Hk as (_ & _ & _ & _ & Hk). rewrite Hk. exact Hcs. }
+    assert (Hall' : forall x, In x es -> const_size x = true) by (now apply Forall_forall).
+    destruct Hla as [-> | ->].
+    + rewrite (sem_lb_split cs W cx Htext Hlen 2 (le_n _) fuel Hfuel (atom_list bs false g es) g st);
+        auto using atom_wfe, atom_zok; [|intros x' Hx'; eapply atom_const; eauto].
+      rewrite (sem_lb_split cs W cx Htext Hlen 2 (le_n _) fuel Hfuel es g st); auto.
+      apply gsem_alts_atom; auto.
+    + rewrite (sem_lbn_split cs W cx Htext Hlen 2 (le_n _) fuel Hfuel (atom_list bs false g es) g st);
+        auto using atom_wfe, atom_zok; [|intros x' Hx'; eapply atom_const; eauto].
+      rewrite (sem_lbn_split cs W cx Htext Hlen 2 (le_n _) fuel Hfuel es g st); auto.
+      apply gsem_seq_atom; auto.
+  - (* one body *)
+    rewrite (atomize_la bs c la g hc Hsh Esp).
+    destruct la.
+    + assert (Hsp : (exists i sz ci, c = Delegate i sz ci DNlStarEnd) \/ zok c).
+      { destruct c; try (right; exact Hz). destruct k; [right; exact Hz|left; eauto]. }
+      destruct Hsp as [(i & sz & ci & ->)|Hzc]; [reflexivity|]. apply la_ahead; auto. repeat split; auto.
+    + assert (Hsp : (exists i sz ci, c = Delegate i sz ci DNlStarEnd) \/ zok c).
+      { destruct c; try (right; exact Hz). destruct k; [right; exact Hz|left; eauto]. }
+      destruct Hsp as [(i & sz & ci & ->)|Hzc]; [reflexivity|]. apply la_ahead; auto. repeat split; auto.
+    + destruct (Hlb eq_refl) as [Hzc Hcc]. apply la_behind_const; auto; [repeat split; auto|].
+      destruct Hcc as [Hcc|(es0 & -> & _)]; auto. now apply negb_false_iff in Esp.
+    + destruct (Hlb eq_refl) as [Hzc Hcc]. apply la_behind_const; auto; [repeat split; auto|].
+      destruct Hcc as [Hcc|(es0 & -> & _)]; auto. now apply negb_false_iff in Esp.
+Qed.
 
 End A.
